@@ -183,7 +183,8 @@ func pmOps(np int, fam map[string]bool, tier string) []string {
 					}
 					add("SetExt %d %d %d", r, a, lam)
 				}
-				add("SetExtZ0 %d %d", r, a) // (X,Y,0,T) of register a
+				add("SetExtZ0 %d %d", r, a)   // (X,Y,0,T) of register a
+				add("SetExtNegT %d %d", r, a) // (X,Y,Z,-T): both squares unchanged, XY = ZT broken unless T = 0
 			}
 			for k := 0; k < 6; k++ {
 				if small && k != 0 && k != 3 {
@@ -335,6 +336,20 @@ func pmApply(s *pState, op string) (bool, *core.Fail) {
 			expectErr = true
 		} else {
 			want = pt
+		}
+	case "SetExtNegT":
+		a := atoi(f[2])
+		if !need(a) {
+			return false, nil
+		}
+		X, Y, Z, T := s.P[a].ExtendedCoordinates()
+		tv := ref.FromLE(T.Bytes())
+		T.Negate(T)
+		ret, err = recv.SetExtendedCoordinates(X, Y, Z, T)
+		if tv.Sign() == 0 {
+			want = s.M[a] // T = 0: negation changes nothing
+		} else {
+			expectErr = true
 		}
 	case "SetExt", "SetExtZ0":
 		a := atoi(f[2])
